@@ -195,6 +195,12 @@ class IndicatorInterp(Interp):
         if isinstance(base, Obj) and base.kind in ("cand-indicators", "cand-sub_indicators") and isinstance(idx, Str):
             st.site("read", node, name=idx.s, pos=base.data, how="direct-dict", guarded=False)
             return Num(mk_rd(idx.s, base.data))
+        # a dict-valued reading held in a local:  data = self.reading("x_data") ; data["field"]
+        if isinstance(base, Num) and isinstance(idx, Str):
+            a = poly._single_atom(base.f)
+            if a is not None and a[0] == "rd" and isinstance(a[1], str) and "." not in a[1]:
+                st.site("read", node, name=f"{a[1]}.{idx.s}", pos=a[2], how="dict-field", guarded=True)
+                return Num(mk_rd(f"{a[1]}.{idx.s}", a[2]))
         return Opaque("subscript")
 
     def slice(self, st, base, lo, hi, node):
